@@ -510,6 +510,33 @@ pub fn family(ts: &TypeSet, level: Level) -> Vec<Q> {
             }
         }
     }
+    // triples over one column (+ COUNT(*)), in every order: an implementation may derive a later
+    // aggregate from earlier results of the same list (AVG from SUM and a COUNT, COUNT(c) from COUNT(*))
+    for c in 0..2 {
+        let mut set: Vec<Agg> = vec![ag(Func::CountStar, Arg::Star)];
+        for f in FIVE {
+            if ts[c].is_num() || matches!(f, Func::Count | Func::Min | Func::Max) {
+                set.push(ag(f, Arg::Col(c)));
+            }
+        }
+        for (i, x) in set.iter().enumerate() {
+            for (j, y) in set.iter().enumerate() {
+                for (k, z) in set.iter().enumerate() {
+                    if i == j || j == k || i == k {
+                        continue;
+                    }
+                    let keep = match level {
+                        // Small: the lists that end in AVG or COUNT(col) of the second column
+                        Level::Small => c == 1 && matches!(z.f, Func::Avg | Func::Count) && (x.f == Func::CountStar || y.f == Func::CountStar),
+                        _ => true,
+                    };
+                    if keep {
+                        lists.push(vec![x.clone(), y.clone(), z.clone()]);
+                    }
+                }
+            }
+        }
+    }
     let f1_wheres: Vec<Vec<Atom>> =
         if level == Level::Full { vec![vec![], w_b_ge.clone(), w_a_eq.clone()] } else { vec![vec![], w_b_ge.clone()] };
     for aggs in &lists {
